@@ -4,7 +4,7 @@ usage: tools/run_seeded.py [id ...]      (always restores /repo)"""
 import json, os, subprocess, sys, glob, re
 V = "/verif"
 EXTRA = {"C01-A": ["C13", "C12"], "C02-B": ["C10", "C12"], "C18-B": ["C10"], "C19-B": ["C14"], "C01-C": ["C04"], "C01-D": ["C08", "C20"],
-         "C09-C": ["C13"], "C12-C": ["C13"], "C03-D": ["C05"], "C10-C": ["C11"], "C11-C": ["C13"], "C15-C": ["C01"], "C19-C": ["C14"], "C14-D": ["C04"], "C10-E": ["C11"], "C01-E": ["C15"], "C01-F": ["C08"], "C04-E": ["C12"], "C09-E": ["C12"], "C03-F": ["C06"], "C05-E": ["C03"], "C02-F": ["C10"], "C10-F": ["C09"], "C11-E": ["C18"], "C11-F": ["C12"], "C18-F": ["C11"], "C19-E": ["C10"], "C19-F": ["C14"], "C01-G": ["C04"], "C01-H": ["C04"], "C02-G": ["C10"], "C04-H": ["C14"], "C10-G": ["C09"], "C11-H": ["C13"], "C12-H": ["C14"], "C07-G": ["C12"], "C14-H": ["C04"], "C16-H": ["C15"], "C19-G": ["C08"], "C08-G": ["C20"], "C10-I": ["C11"], "C10-J": ["C12"], "C11-I": ["C09"], "C11-J": ["C13"], "C14-I": ["C12"], "C01-I": ["C12"], "C01-J": ["C11", "C13"], "C03-J": ["C09"], "C08-I": ["C11"], "C02-I": ["C07"], "C02-J": ["C10"]}   # cross-property detection worth recording
+         "C09-C": ["C13"], "C12-C": ["C13"], "C03-D": ["C05"], "C10-C": ["C11"], "C11-C": ["C13"], "C15-C": ["C01"], "C19-C": ["C14"], "C14-D": ["C04"], "C10-E": ["C11"], "C01-E": ["C15"], "C01-F": ["C08"], "C04-E": ["C12"], "C09-E": ["C12"], "C03-F": ["C06"], "C05-E": ["C03"], "C02-F": ["C10"], "C10-F": ["C09"], "C11-E": ["C18"], "C11-F": ["C12"], "C18-F": ["C11"], "C19-E": ["C10"], "C19-F": ["C14"], "C01-G": ["C04"], "C01-H": ["C04"], "C02-G": ["C10"], "C04-H": ["C14"], "C10-G": ["C09"], "C11-H": ["C13"], "C12-H": ["C14"], "C07-G": ["C12"], "C14-H": ["C04"], "C16-H": ["C15"], "C19-G": ["C08"], "C08-G": ["C20"], "C10-I": ["C11"], "C10-J": ["C12"], "C11-I": ["C09"], "C11-J": ["C13"], "C14-I": ["C12"], "C01-I": ["C12"], "C01-J": ["C11", "C13"], "C03-J": ["C09"], "C08-I": ["C11"], "C02-I": ["C07"], "C02-J": ["C10"], "C19-L": ["C14"], "C01-K": ["C04"], "C01-L": ["C09"], "C14-K": ["C04"], "C16-K": ["C18"], "C10-K": ["C11"], "C18-K": ["C10"], "C04-K": ["C14"], "C05-K": ["C03"]}   # cross-property detection worth recording
 # the checks rewrite evidence/<id>.json on every run; runs against a patched tree must not leave their (truncated)
 # records behind, so the directory is saved here and restored at the end
 import shutil, tempfile, atexit
